@@ -65,6 +65,12 @@ class C13(Prop):
             else:
                 dtype, vals, enum = tc.gen_string_feature(rng, n)
                 yield {"stream": "string", "kind": dtype, "n_bins": nb, "method": rng.choice(tc.ALL_METHODS), "feature": vals, "enum": enum}
+        for k in range(24 if tier == "quick" else 300):
+            # narrow integer columns (Int8 / UInt8 / Int16 / UInt16), also with more bins than an 8-bit bin index could hold
+            many = k % 3 == 0
+            kind, vals = tc.gen_narrow_feature(rng, many)
+            yield {"stream": "numeric", "kind": kind, "n_bins": rng.choice([130, 200, 255]) if many else rng.randint(2, 12),
+                   "method": rng.choice(["quantile", "uniform"]) if many else rng.choice(["quantile", "uniform", "sqrt", "sturges"]), "feature": vals}
         for pooled in ([10, 20, 30, 100, 110] if tier == "quick" else [10, 20, 30, 40, 100, 110, 200, 1000, 1010]):
             # 'other k' with k a multiple of ten (trailing zeros of the formatted count), k = pooled
             nb = rng.choice([2, 3])
@@ -84,7 +90,7 @@ class C13(Prop):
     def series(self, case):
         if case["stream"] == "numeric":
             vals = self.values(case)
-            return tc.numeric_series(case["kind"], [None if v is None else (int(v) if case["kind"].startswith("int") else v) for v in vals])
+            return tc.numeric_series(case["kind"], [None if v is None else (int(v) if case["kind"].startswith(("int", "uint")) else v) for v in vals])
         return tc.string_series(case["kind"], case["feature"], case.get("enum"))
 
     def impl(self, case):
